@@ -149,6 +149,9 @@ func runBigFresh(p *core.Program, r *core.Report) {
 	mutators := map[string]bool{"Add": true, "Sub": true, "Mul": true, "Quo": true, "Div": true, "Mod": true, "Rem": true, "Neg": true, "Abs": true, "Set": true, "SetInt": true, "SetInt64": true, "SetFrac": true, "SetString": true, "SetUint64": true, "Exp": true, "Inv": true, "Lsh": true, "Rsh": true, "And": true, "Or": true, "Xor": true, "Not": true, "Sqrt": true, "QuoRem": true, "DivMod": true, "SetFloat64": true, "SetBit": true, "Rand": true, "GCD": true, "ModInverse": true}
 	n := 0
 	seenC := map[string]bool{}
+	// helperFresh: result idx of a call of a helper of the repository is
+	// fresh at every return of the helper.
+	var helperFresh func(x *ssa.Call, idx int, seen map[ssa.Value]bool) bool
 	var fresh func(v ssa.Value, seen map[ssa.Value]bool) bool
 	fresh = func(v ssa.Value, seen map[ssa.Value]bool) bool {
 		if seen[v] {
@@ -187,41 +190,7 @@ func runBigFresh(p *core.Program, r *core.Report) {
 			}
 			// a helper of the repository that returns a fresh number
 			if callee.Blocks != nil && strings.HasPrefix(core.PkgPathOf(callee), core.ModPath) {
-				all, any := true, false
-				core.Instrs(callee, func(ins ssa.Instruction) {
-					if ret, ok := ins.(*ssa.Return); ok && len(ret.Results) >= 1 {
-						any = true
-						res := ret.Results[0]
-						// a function with a defer returns through a result cell
-						if ld, ok := res.(*ssa.UnOp); ok && ld.Op == token.MUL {
-							if cell, ok := ld.X.(*ssa.Alloc); ok {
-								if w := singleStoreOf(cell); w != nil {
-									res = w
-								}
-							}
-						}
-						// withRand(func(r) *big.Int {...}): the helper returns
-						// what the closure it was given returns
-						if rc, ok := res.(*ssa.Call); ok {
-							for k, prm := range callee.Params {
-								if rc.Call.Value == ssa.Value(prm) && k < len(x.Call.Args) {
-									if cf, ok := closureOf(x.Call.Args[k]); ok {
-										core.Instrs(cf, func(i2 ssa.Instruction) {
-											if r2, ok := i2.(*ssa.Return); ok && len(r2.Results) >= 1 && !fresh(r2.Results[0], seen) {
-												all = false
-											}
-										})
-										return
-									}
-								}
-							}
-						}
-						if !fresh(res, seen) {
-							all = false
-						}
-					}
-				})
-				return any && all
+				return helperFresh(x, 0, seen)
 			}
 		case *ssa.Extract:
 			// q, m := new(big.Int).QuoRem(x, y, new(big.Int)): q is the
@@ -233,7 +202,33 @@ func runBigFresh(p *core.Program, r *core.Report) {
 					}
 					return fresh(c.Call.Args[3], seen)
 				}
+				if callee := c.Call.StaticCallee(); callee != nil && callee.Blocks != nil && strings.HasPrefix(core.PkgPathOf(callee), core.ModPath) {
+					return helperFresh(c, x.Index, seen)
+				}
 			}
+		case *ssa.Parameter:
+			// a helper that finishes a number its callers made: every call
+			// site hands it a fresh one
+			fn := x.Parent()
+			if fn.Parent() != nil || fn.Object() == nil || fn.Object().Exported() || fn.Signature.Recv() != nil {
+				return false
+			}
+			idx := -1
+			for i, q := range fn.Params {
+				if q == x {
+					idx = i
+				}
+			}
+			sites, asValue := bigCallSites(p, fn)
+			if idx < 0 || asValue || len(sites) == 0 {
+				return false
+			}
+			for _, site := range sites {
+				if idx >= len(site.Common().Args) || !fresh(site.Common().Args[idx], seen) {
+					return false
+				}
+			}
+			return true
 		case *ssa.UnOp:
 			if x.Op == token.MUL {
 				if a, ok := x.X.(*ssa.Alloc); ok {
@@ -251,6 +246,44 @@ func runBigFresh(p *core.Program, r *core.Report) {
 			}
 		}
 		return false
+	}
+	helperFresh = func(x *ssa.Call, idx int, seen map[ssa.Value]bool) bool {
+		callee := x.Call.StaticCallee()
+		all, any := true, false
+		core.Instrs(callee, func(ins ssa.Instruction) {
+			if ret, ok := ins.(*ssa.Return); ok && len(ret.Results) > idx {
+				any = true
+				res := ret.Results[idx]
+				// a function with a defer returns through a result cell
+				if ld, ok := res.(*ssa.UnOp); ok && ld.Op == token.MUL {
+					if cell, ok := ld.X.(*ssa.Alloc); ok {
+						if w := singleStoreOf(cell); w != nil {
+							res = w
+						}
+					}
+				}
+				// withRand(func(r) *big.Int {...}): the helper returns
+				// what the closure it was given returns
+				if rc, ok := res.(*ssa.Call); ok {
+					for k, prm := range callee.Params {
+						if rc.Call.Value == ssa.Value(prm) && k < len(x.Call.Args) {
+							if cf, ok := closureOf(x.Call.Args[k]); ok {
+								core.Instrs(cf, func(i2 ssa.Instruction) {
+									if r2, ok := i2.(*ssa.Return); ok && len(r2.Results) > idx && !fresh(r2.Results[idx], seen) {
+										all = false
+									}
+								})
+								return
+							}
+						}
+					}
+				}
+				if !fresh(res, seen) {
+					all = false
+				}
+			}
+		})
+		return any && all
 	}
 	for _, fn := range p.RepoFns {
 		pp := core.PkgPathOf(fn)
@@ -350,4 +383,34 @@ func runNoGlobalCapture(p *core.Program, r *core.Report) {
 	} else {
 		r.Bad(rule, construct, p.InsPos(bad), "the address of the package-level variable "+what+" is stored into the compiler's state: a write through it (a pragma in the code being compiled) survives the compilation, so checking or rejecting one piece of code changes how later code compiles")
 	}
+}
+
+// bigCallSites: the static call sites of fn in the repository, and whether fn
+// is also used as a value somewhere.
+func bigCallSites(p *core.Program, fn *ssa.Function) (sites []ssa.CallInstruction, asValue bool) {
+	for _, g := range p.RepoFns {
+		if g.Pkg != fn.Pkg {
+			continue
+		}
+		core.Instrs(g, func(ins ssa.Instruction) {
+			isCall := false
+			if c, ok := ins.(ssa.CallInstruction); ok && c.Common().StaticCallee() == fn {
+				isCall = true
+				if _, isPlain := ins.(*ssa.Call); isPlain {
+					sites = append(sites, c)
+				} else {
+					asValue = true
+				}
+			}
+			for _, op := range ins.Operands(nil) {
+				if *op == nil {
+					continue
+				}
+				if f, ok := (*op).(*ssa.Function); ok && f == fn && !isCall {
+					asValue = true
+				}
+			}
+		})
+	}
+	return sites, asValue
 }
